@@ -297,7 +297,12 @@ def run_component(comp, streams, seed, tier, name, curves=None, extra_args=None)
         res.cases += 1
         if "nomodel=1" in summ[cid].get("line", ""):
             continue
-        d = compare_case(cid, model.get(cid), impl.get(cid), summ[cid], msm_lines)
+        mm, ii = model.get(cid), impl.get(cid)
+        if "forged=1" in summ[cid].get("line", "") and mm and ii:
+            # dishonest prover (hook H4): the model's prover is honest, so the published points / prover transcript differ by construction
+            mm = {k: v for k, v in mm.items() if k not in (6, 7)}
+            ii = {k: v for k, v in ii.items() if k not in (6, 7)}
+        d = compare_case(cid, mm, ii, summ[cid], msm_lines)
         for code, text in d:
             res.disagreements.append((cid, code, text))
     bad, n = msmcheck(msm_lines, outdir)
